@@ -9,6 +9,21 @@ import (
 
 // evalCall evaluates a call expression and returns its results.
 func (c *FnCtx) evalCall(st *State, call *ast.CallExpr) []*Term {
+	res := c.evalCall1(st, call)
+	if name := c.callOrd[call]; name != "" {
+		// remembered for $ret("pkg.F#k") / $called("pkg.F#k") in later call-site assertions and postconditions
+		if st.calls == nil {
+			st.calls = map[string][]*Term{}
+		}
+		if res == nil {
+			res = []*Term{}
+		}
+		st.calls[name] = res
+	}
+	return res
+}
+
+func (c *FnCtx) evalCall1(st *State, call *ast.CallExpr) []*Term {
 	// conversion?
 	if tv, ok := c.info.Types[call.Fun]; ok && tv.IsType() {
 		return []*Term{c.evalConversion(st, call, tv.Type)}
@@ -24,6 +39,14 @@ func (c *FnCtx) evalCall(st *State, call *ast.CallExpr) []*Term {
 							continue
 						}
 						env[fmt.Sprintf("$arg%d", i)] = c.eval(st, ae)
+					}
+				}
+				if strings.Contains(a.Text, "$recv") {
+					// $recv: the receiver of a method call
+					if f, ok := ast.Unparen(call.Fun).(*ast.SelectorExpr); ok {
+						if sel, ok := c.info.Selections[f]; ok && sel.Kind() == types.MethodVal {
+							env["$recv"] = c.eval(st, f.X)
+						}
 					}
 				}
 				g := c.specEvalAt(st, a.Expr, env, c.pre, call)
